@@ -178,7 +178,7 @@ def main(argv):
         lines.append("emit3 %d %s %s %d %d %s %s %s %s" % (msgid, "".join("1" if x else "0" for x in f), gen.hx(eid), boots, tm,
                                                          gen.hx(user), gen.hx(authp), gen.hx(pp), data_spec))
         flags = (1 if f[0] else 0) | (2 if f[1] else 0) | (4 if f[2] else 0)
-        expect.append(ber.msg_v3(msgid, flags, ber.usm_params(eid, boots, tm, user, authp, pp), data, max_size=2048))
+        expect.append(ber.msg_v3(msgid, flags, ber.usm_params(eid, boots, tm, user, authp, pp), data, max_size=vf.constant("V3_MAX_SIZE", 2048)))
     m, r, d = cd.run(lines)
     back = []
     for ln, want, ml, rl, dl in zip(lines, expect, m, r, d):
